@@ -119,6 +119,14 @@ def handle (op : String) (j : Json) : Option (Except String Json) :=
   | "c08.mk_dch" => some do
     let h ← parseDCH j
     .ok (ofExcept ofDCH (mkDCH h.n h.one h.two h.c))
+  | "c08.mk_qh" => some do
+    let n ← J.nat (← J.field j "n")
+    let M ← parseTensor 2 (← J.field j "M")
+    let D ← match j.getObjVal? "D" with
+      | .ok .null => pure none
+      | .ok v => do pure (some (← parseTensor 2 v))
+      | .error _ => pure none
+    .ok (ofPT (mkQH n M D (← J.gq (← J.field j "c")) (← J.gq (← J.field j "mu"))))
   | "c08.dch_to_fermion" => some do
     .ok (J.ofOp (dchToFermion tol (← parseDCH (← J.field j "h"))))
   | "c08.dch_arith" => some do
